@@ -51,18 +51,28 @@ EACH change:
      violation of the property as stated, not of something stronger than the property says.
   4. the two changes should be in different mechanisms (different functions/templates/files) and have different
      kinds of trigger.
-  5. Earlier rounds of this exercise already produced, for the various properties: changes to iohelp's primitive
-     readers/writers and its error latches, Size() shortcuts for "fixed-size" structs, misspelled template keys,
-     pending-state leaks in the parser ([deprecated], [opcode], [flags]), precedence/grouping of [flags] expressions,
-     printf-format mishaps with %, long-comment / buffer-size effects in the tokenizer, import de-duplication keys,
-     hard links / long lines / shared buffers in the command-line tools, sync.Once caches, and aliasing through
-     *FieldType. Do NOT repeat those ideas. Look for something of a different kind - for instance: an off-by-one at a
-     numeric boundary (255/256 indices, 2^31/2^32 lengths, discriminator or opcode bytes, the 4096 pre-allocation
-     threshold from the other side), signedness or width confusion, a map/array/union nesting that takes a different
-     emitter path, readonly structs and their getters/constructors, pointer-receiver or private-definition variants of
-     a template, opcodes, enums with unusual bases, dates/guids/floats, sort or iteration order, error paths that
-     return early and skip a restore/cleanup (LimitedReader, baseReader, temp files), Validate rules that interact,
-     formatter handling of attributes/tags/deprecations/unions, directory handling in the tools, exit codes.
+  5. Five earlier rounds of this exercise already produced about two hundred changes. Ideas that are TAKEN (do not
+     repeat them or close variants): anything in iohelp's EnsureLen / PreallocLen / ReadBytes / Drain / error latches /
+     shared-memory string readers (unsafe.String) / date conversion; Size() shortcuts for "fixed-size" structs or enum
+     arrays; skipping deprecated union branches; minWireSizes fix-point mistakes; the counted-struct
+     (structsHoldingRecords) analysis; misspelled template keys; pending-state leaks in the parser ([deprecated],
+     [opcode], [flags], blank lines); [flags] precedence, grouping and shift evaluation; printf-format mishaps with %;
+     long-comment / ReadSlice / CRLF / tab handling in the tokenizer; non-ASCII identifiers; block-comment
+     terminators; import de-duplication keys and relative paths; import-block computation (time/math/bebop);
+     importgraph edge handling; hard links, long lines, shared buffers, temp-file fallbacks and exit-status counts in
+     the command-line tools; sync.Once caches; aliasing through *FieldType or spare slice capacity; guid literal
+     checks; uint8 loops that stop before 255; two-digit message indices sorted as text.
+     Find something genuinely different. Places nobody has touched yet include: union discriminators and the
+     union decoders' LimitedReader / length arithmetic (gen_union.go); message terminator and index handling in
+     the byte-slice decoders; readonly structs (getters, New<T> constructors, unexported fields); opcode constants and
+     the 4-character opcode conversion; enum base types in every template (typeMarshallers, typeByters,
+     typeUnmarshallers, typeLengthers) and their signed/unsigned casts; map key templates for each of the 14 key
+     types; date / guid / float32 templates; pointer-receiver variants; PrivateDefinitions naming (exposeName /
+     unexposeName) for Make/MustMake/New helpers; GenerateFieldTags; Validate's duplicate-name / opcode / enum-value
+     rules and their interaction with imports and namespaces; const parsing (hex, negative, float forms, bool);
+     the formatter's handling of [deprecated] / [opcode] / tags / unions / enums / consts / imports and indentation
+     state; directory walking, flag parsing and -w / stdout behaviour of the tools; ReadFile's FileNamer hook;
+     Generate's handling of PackageName vs go_package.
 Read the code first; look for shortcuts, special cases, counters, cursors, shared buffers, thresholds, lookup tables
 keyed by type name, pending-state flags, and places where two code paths must agree.
 
